@@ -9,21 +9,26 @@ Property theorems only (lemmas: `Lemmas/KvStore.lean`, `Lemmas/KvFiles.lean`, `L
 namespace Iora.C12
 open Iora Iora.Kv
 
+/-- a concrete configuration for non-vacuity examples placed before `exCfg` -/
+def exCfg0 : Cfg := { lim := Lim.gen, crc := fun _ => 0, maxCache := 0, maxLog := 64, inlineCompact := true }
+
 /-- **Gen obligation.** The limits and format constants extracted from the working tree satisfy what the proofs need:
 `load` re-admits every key, value and record the API admits (in particular `loadTotalLenMax` covers the largest record
-`writeLogEntry` can produce), lengths fit their 32-bit fields, the plausibility ceiling fits an `int64`. -/
+`writeLogEntry` can produce), lengths fit their 32-bit fields, and every plausible expiry is representable as a
+`system_clock::time_point` (`maxPlausibleEpochMs ≤ timePointMaxMs`: neither `fromEpochMs` in `load` nor a TTL deadline can overflow). -/
 theorem gen_limits_ok : Lim.gen.OK := by
   constructor <;> decide
 
 /-- **Gen obligation.** Format facts the model hard-wires: op letters and which of them carry an expiry / a value, field
-widths, snapshot versions, the no-expiry sentinel, and the two shape facts of `load` the model depends on (torn tail cut
-before the log is reopened; expiry judged once, after the replay). -/
+widths, snapshot versions, the no-expiry sentinel, the two shape facts of `load` the model depends on (torn tail cut
+before the log is reopened; expiry judged once, after the replay), the saturating TTL deadline and `maxCacheSize == 0` = cache off. -/
 theorem gen_format_ok :
     Gen.Kv.opsWritten = [opD, opE, opS, opX].map (·.toNat) ∧ Gen.Kv.opsAccepted = [opD, opE, opS, opX].map (·.toNat) ∧
     Gen.Kv.opsWithExpiry = [opE, opX].map (·.toNat) ∧ Gen.Kv.opsWithValue = [opE, opS].map (·.toNat) ∧
     (Gen.Kv.lenWidth, Gen.Kv.keyLenWidth, Gen.Kv.expiryWidth, Gen.Kv.valLenWidth, Gen.Kv.crcWidth) = (4, 4, 8, 4, 4) ∧
     Gen.Kv.snapVersionWritten = 2 ∧ Gen.Kv.snapVersionsAccepted = [1, 2] ∧ Gen.Kv.noExpirySentinel = sentinel ∧
-    Gen.Kv.validateMin = 10 ∧ Gen.Kv.loadTruncatesTornTail = true ∧ Gen.Kv.loadSweepsOnceAtEnd = true := by
+    Gen.Kv.validateMin = 10 ∧ Gen.Kv.loadTruncatesTornTail = true ∧ Gen.Kv.loadSweepsOnceAtEnd = true ∧
+    Gen.Kv.ttlDeadlineSaturates = true ∧ Gen.Kv.cacheSizeZeroDisables = true := by
   decide
 
 /-- **M1 (refinement).** For every configuration (any cache size, any compaction threshold, inline or background
@@ -79,9 +84,29 @@ theorem M3_overwrite (cfg : Cfg) (hl : cfg.lim.OK) (w : W) (hi : Inv cfg w) (k :
   have habs : (step cfg w (.set k v)).1.abs.m k = some (v, none) := by
     rw [h2]; simp [specStep, hv, Spec.upd]
   refine ⟨habs, ?_⟩
-  obtain ⟨_, _, h5⟩ := step_mem_ok cfg (step cfg w (.set k v)).1 h1.mem (.get k) (by intro h; cases h)
+  obtain ⟨_, _, h5⟩ := step_mem_ok cfg (step cfg w (.set k v)).1 h1.mem h1.cacheOff (.get k) (by intro h; cases h)
   simp only [OutOK] at h5
   rw [h5, habs]; rfl
+
+/-- **M3 (TTL write is there, however large the TTL).** After `set k v ttl` with any `ttl > 0` — `std::chrono::seconds::max()`
+included — the key holds exactly `v` with deadline `min (now + ttl) lastRepresentableInstant`: the deadline saturates instead of
+wrapping into the past (FC12b), so an acknowledged TTL write is never immediately absent (as long as the clock itself is
+before the last representable instant). -/
+theorem M3_ttl_deadline (cfg : Cfg) (hl : cfg.lim.OK) (w : W) (hi : Inv cfg w) (k : Key) (v : Val) (ttl : Int)
+    (hok : StepOK cfg w (.setTtl k v ttl)) (hv : validate cfg.lim k v = none) (ht : 0 < ttl) (hn : w.now < cfg.lim.maxPlausible) :
+    (step cfg w (.setTtl k v ttl)).1.abs.m k = some (v, some (deadlineAfter cfg.lim w.now ttl)) ∧
+    w.now < deadlineAfter cfg.lim w.now ttl := by
+  obtain ⟨_, h2, _⟩ := step_ok cfg hl w hi (.setTtl k v ttl) hok
+  have hlt : w.now < deadlineAfter cfg.lim w.now ttl := by unfold deadlineAfter; omega
+  refine ⟨?_, hlt⟩
+  rw [h2]
+  have h0 : ¬ ttl ≤ 0 := by omega
+  have hnow : (W.abs w).now = w.now := rfl
+  simp [specStep, hv, h0, Spec.upd, live, hnow, hlt]
+
+/-- non-vacuity: a TTL of 8·10⁹ s (≈ 253 years, the coordinator's witness) satisfies the hypotheses on a fresh store -/
+example : StepOK exCfg0 (W.init exCfg0 1000 []) (.setTtl [0x6b] [0x76] 8000000000) ∧ validate exCfg0.lim [0x6b] [0x76] = none ∧
+    (1000 : Int) < exCfg0.lim.maxPlausible := ⟨⟨by decide, trivial⟩, by decide, by decide⟩
 
 /-- **M4 (restart).** A clean close followed by a new instance on the same directory — at the current time, i.e. after
 any clock advance — shows exactly the same abstract state: nothing is lost, nothing expired comes back, expiries are
@@ -89,7 +114,7 @@ the same absolute instants. -/
 theorem M4_restart (cfg : Cfg) (hl : cfg.lim.OK) (w : W) (hi : Inv cfg w) :
     (step cfg w .reopen).1.abs = w.abs ∧ (step cfg w .reopen).2 = .ok ∧ Inv cfg (step cfg w .reopen).1 := by
   obtain ⟨a, b, c, d⟩ := reopen_ok cfg hl { w with tr := [] } hi.mem (FInv.resetTr cfg w hi.file)
-  exact ⟨c, d, ⟨a, b⟩⟩
+  exact ⟨c, d, ⟨a, b, cacheOff_step cfg w hi.cacheOff .reopen⟩⟩
 
 /-- **M4 (restart, over histories).** Corollary of `M1_refinement`: `reopen` may occur anywhere in a history, any number
 of times, with clock advances of any size in between, and the store still equals the reference map — for which `reopen`
